@@ -21,6 +21,8 @@ package main
 
 import (
 	"fmt"
+	"os"
+	"path/filepath"
 	"go/ast"
 	"go/constant"
 	"go/token"
@@ -33,6 +35,69 @@ var (
 	inProgress     = map[string]bool{}
 	emittedStructs = map[string]bool{}
 )
+
+// dirOfPkg maps a types.Package to its directory relative to the repository.
+// The package under translation is type-checked under its directory name;
+// imported repository packages carry the module path.
+func dirOfPkg(p *types.Package) string {
+	if p == nil {
+		return ""
+	}
+	path := p.Path()
+	if modulePath != "" && strings.HasPrefix(path, modulePath+"/") {
+		return strings.TrimPrefix(path, modulePath+"/")
+	}
+	return path
+}
+
+// inRepo reports whether p is a package of the repository being translated.
+func inRepo(p *types.Package) bool {
+	if p == nil {
+		return false
+	}
+	d := dirOfPkg(p)
+	if strings.Contains(strings.SplitN(d, "/", 2)[0], ".") {
+		return false
+	}
+	fi, err := os.Stat(filepath.Join(repo, d))
+	return err == nil && fi.IsDir()
+}
+
+func isTimeTime(n *types.Named) bool {
+	return n != nil && n.Obj() != nil && n.Obj().Pkg() != nil && n.Obj().Pkg().Path() == "time" && n.Obj().Name() == "Time"
+}
+
+func structTag(n *types.Named) string { return typeTag(dirOfPkg(n.Obj().Pkg()), n.Obj().Name()) }
+
+var rootDir string // package directory of the spec item being translated (informational)
+
+// typeTag gives the Coq name stem for a Go type or function of package dir.
+// The plain Go name is used unless another package already took it in this
+// module; the choice is made once per (dir, name) and is stable for the run.
+var (
+	tagOf    = map[string]string{}
+	tagTaken = map[string]string{}
+)
+
+func typeTag(dir, name string) string {
+	key := dir + "\x00" + name
+	if t, ok := tagOf[key]; ok {
+		return t
+	}
+	tag := name
+	if owner, taken := tagTaken[tag]; taken && owner != key {
+		tag = dir[strings.LastIndex(dir, "/")+1:] + "_" + name
+		for i := 2; ; i++ {
+			if owner, taken := tagTaken[tag]; !taken || owner == key {
+				break
+			}
+			tag = fmt.Sprintf("%s%d_%s", dir[strings.LastIndex(dir, "/")+1:], i, name)
+		}
+	}
+	tagOf[key] = tag
+	tagTaken[tag] = key
+	return tag
+}
 
 type ftr struct {
 	pi    *pkgInfo
@@ -58,8 +123,13 @@ func kindOfType(ty types.Type) (tkind, bool) {
 		return tkind{}, false
 	}
 	if n, ok := ty.(*types.Named); ok {
+		if isTimeTime(n) {
+			// time.Time as an instant in ns on an ideal Z line; the zero Time is 0 and
+			// every real instant is assumed non-zero (stated in the trusted base)
+			return tkind{k: "Z", w: 64}, true
+		}
 		if _, ok := n.Underlying().(*types.Struct); ok {
-			return tkind{k: "struct", name: n.Obj().Name()}, true
+			return tkind{k: "struct", name: structTag(n)}, true
 		}
 	}
 	if a, ok := ty.(*types.Alias); ok {
@@ -143,7 +213,7 @@ func (t *ftr) zero(ty types.Type, at ast.Node) string {
 }
 
 func (t *ftr) ensureStruct(n *types.Named, at ast.Node) {
-	key := t.dir + "." + n.Obj().Name()
+	key := dirOfPkg(n.Obj().Pkg()) + "." + n.Obj().Name()
 	if emittedStructs[key] {
 		return
 	}
@@ -158,9 +228,9 @@ func (t *ftr) ensureStruct(n *types.Named, at ast.Node) {
 		if fk.k == "struct" {
 			t.ensureStruct(st.Field(i).Type().(*types.Named), at)
 		}
-		fs = append(fs, fmt.Sprintf("T_%s_%s : %s", n.Obj().Name(), st.Field(i).Name(), fk.coq()))
+		fs = append(fs, fmt.Sprintf("T_%s_%s : %s", structTag(n), st.Field(i).Name(), fk.coq()))
 	}
-	fmt.Fprintf(&out, "(* struct %s.%s *)\nRecord T_%s := mk_T_%s { %s }.\n\n", t.dir, n.Obj().Name(), n.Obj().Name(), n.Obj().Name(), strings.Join(fs, "; "))
+	fmt.Fprintf(&out, "(* struct %s.%s *)\nRecord T_%s := mk_T_%s { %s }.\n\n", dirOfPkg(n.Obj().Pkg()), n.Obj().Name(), structTag(n), structTag(n), strings.Join(fs, "; "))
 }
 
 func (t *ftr) typeOf(e ast.Expr) types.Type {
@@ -286,21 +356,26 @@ func (t *ftr) expr(e ast.Expr) string {
 	case *ast.SelectorExpr:
 		// struct field
 		if sel := namedOf(t.typeOf(e.X)); sel != nil {
-			if _, ok := sel.Underlying().(*types.Struct); ok && sel.Obj().Pkg() == t.pi.pkg {
-				t.ensureStruct(sel, e)
-				t.kindOf(e)
-				return "(T_" + sel.Obj().Name() + "_" + e.Sel.Name + " " + t.expr(e.X) + ")"
+			if _, ok := sel.Underlying().(*types.Struct); ok && inRepo(sel.Obj().Pkg()) {
+				if _, isField := t.pi.info.Uses[e.Sel].(*types.Var); isField {
+					t.ensureStruct(sel, e)
+					t.kindOf(e)
+					return "(T_" + structTag(sel) + "_" + e.Sel.Name + " " + t.expr(e.X) + ")"
+				}
 			}
 		}
 		t.bad(e, "selector %s", e.Sel.Name)
 	case *ast.CompositeLit:
 		n := namedOf(t.typeOf(e))
+		if isTimeTime(n) && len(e.Elts) == 0 {
+			return "(0)%Z"
+		}
 		if n == nil {
 			t.bad(e, "composite literal of unsupported type")
 		}
 		st, ok := n.Underlying().(*types.Struct)
-		if !ok || n.Obj().Pkg() != t.pi.pkg {
-			t.bad(e, "composite literal of non-local type")
+		if !ok || !inRepo(n.Obj().Pkg()) {
+			t.bad(e, "composite literal of a type outside the repository")
 		}
 		t.ensureStruct(n, e)
 		vals := make([]string, st.NumFields())
@@ -324,7 +399,7 @@ func (t *ftr) expr(e ast.Expr) string {
 				vals[i] = t.expr(el)
 			}
 		}
-		return "(mk_T_" + n.Obj().Name() + " " + strings.Join(vals, " ") + ")"
+		return "(mk_T_" + structTag(n) + " " + strings.Join(vals, " ") + ")"
 	case *ast.CallExpr:
 		return t.call(e)
 	}
@@ -494,10 +569,48 @@ func (t *ftr) call(e *ast.CallExpr) string {
 			return t.apply(name, nil, e)
 		}
 	case *ast.SelectorExpr:
-		if n := namedOf(t.typeOf(f.X)); n != nil && n.Obj().Pkg() == t.pi.pkg {
+		if n := namedOf(t.typeOf(f.X)); isTimeTime(n) {
+			x := t.expr(f.X)
+			arg := func(i int) string { return t.expr(e.Args[i]) }
+			switch f.Sel.Name {
+			case "IsZero":
+				return "(Z.eqb " + x + " (0)%Z)"
+			case "Before":
+				return "(Z.ltb " + x + " " + arg(0) + ")"
+			case "After":
+				return "(Z.ltb " + arg(0) + " " + x + ")"
+			case "Equal":
+				return "(Z.eqb " + x + " " + arg(0) + ")"
+			case "Add":
+				return "(Z.add " + x + " " + arg(0) + ")"
+			case "Sub":
+				return "(Z.sub " + x + " " + arg(0) + ")"
+			case "Compare":
+				return "(match Z.compare " + x + " " + arg(0) + " with Lt => (-1)%Z | Eq => (0)%Z | Gt => (1)%Z end)"
+			case "UnixNano":
+				return x
+			}
+			t.bad(e, "time.Time method %s", f.Sel.Name)
+		}
+		if n := namedOf(t.typeOf(f.X)); n != nil && inRepo(n.Obj().Pkg()) {
 			if _, ok := t.pi.info.Uses[f.Sel].(*types.Func); ok {
-				name := ensureFunc(t.pi, t.dir, n.Obj().Name()+"."+f.Sel.Name, e)
+				d := dirOfPkg(n.Obj().Pkg())
+				pi := t.pi
+				if d != t.dir {
+					pi = loadPkg(d)
+				}
+				name := ensureFunc(pi, d, n.Obj().Name()+"."+f.Sel.Name, e)
 				return t.apply(name, f.X, e)
+			}
+		}
+		// function of another package of the repository: pkg.Func(args)
+		if id, ok := f.X.(*ast.Ident); ok {
+			if pn, ok := t.pi.info.Uses[id].(*types.PkgName); ok && inRepo(pn.Imported()) {
+				if _, ok := t.pi.info.Uses[f.Sel].(*types.Func); ok {
+					d := dirOfPkg(pn.Imported())
+					name := ensureFunc(loadPkg(d), d, f.Sel.Name, e)
+					return t.apply(name, nil, e)
+				}
 			}
 		}
 	}
@@ -536,17 +649,17 @@ func (t *ftr) assignTo(lhs ast.Expr, val string, rest string) string {
 		base, ok := l.X.(*ast.Ident)
 		n := namedOf(t.typeOf(l.X))
 		if ok && n != nil {
-			if st, ok := n.Underlying().(*types.Struct); ok && n.Obj().Pkg() == t.pi.pkg {
+			if st, ok := n.Underlying().(*types.Struct); ok && inRepo(n.Obj().Pkg()) {
 				t.ensureStruct(n, lhs)
 				var parts []string
 				for i := 0; i < st.NumFields(); i++ {
 					if st.Field(i).Name() == l.Sel.Name {
 						parts = append(parts, val)
 					} else {
-						parts = append(parts, "(T_"+n.Obj().Name()+"_"+st.Field(i).Name()+" v_"+base.Name+")")
+						parts = append(parts, "(T_"+structTag(n)+"_"+st.Field(i).Name()+" v_"+base.Name+")")
 					}
 				}
-				return "(let v_" + base.Name + " := (mk_T_" + n.Obj().Name() + " " + strings.Join(parts, " ") + ") in\n  " + rest + ")"
+				return "(let v_" + base.Name + " := (mk_T_" + structTag(n) + " " + strings.Join(parts, " ") + ") in\n  " + rest + ")"
 			}
 		}
 	}
@@ -747,7 +860,9 @@ func (t *ftr) block(list []ast.Stmt, k func() string) string {
 	return ""
 }
 
-func coqFuncName(fn string) string { return "go_" + strings.ReplaceAll(fn, ".", "_") }
+func coqFuncName(dir, fn string) string {
+	return "go_" + typeTag(dir, strings.ReplaceAll(fn, ".", "_"))
+}
 
 // ensureFunc translates dir.fn if not done yet and returns its Coq name.
 func ensureFunc(pi *pkgInfo, dir, fn string, at ast.Node) string {
@@ -836,7 +951,7 @@ func ensureFunc(pi *pkgInfo, dir, fn string, at ast.Node) string {
 	for i := len(namedInit) - 1; i >= 0; i-- {
 		body = "(let " + namedInit[i].n + " := " + namedInit[i].z + " in\n  " + body + ")"
 	}
-	name := coqFuncName(fn)
+	name := coqFuncName(dir, fn)
 	pos := pi.fset.Position(fd.Pos())
 	fmt.Fprintf(&out, "(* purefunc %s.%s (%s:%d) *)\nDefinition %s %s : %s :=\n  %s.\n\n", dir, fn, strings.TrimPrefix(pos.Filename, repo+"/"), pos.Line, name, strings.Join(params, " "), rt, body)
 	emittedFuncs[key] = name
@@ -845,6 +960,7 @@ func ensureFunc(pi *pkgInfo, dir, fn string, at ast.Node) string {
 }
 
 func doPureFunc(it Item) {
+	rootDir = it.Pkg
 	pi := loadPkg(it.Pkg)
 	name := ensureFunc(pi, it.Pkg, it.Func, nil)
 	if it.As != "" && it.As != name {
